@@ -304,6 +304,7 @@ type docgen struct {
 	injected  int
 	strPool   []string
 	depth     int
+	mergeKeys bool                       // allow "<<" as an ordinary key (C08/C09)
 	decorate  func(marker string) string // optional: text appended to every marker (C04: env references)
 	placed    []string                   // decorated markers as placed
 }
@@ -383,6 +384,9 @@ func (g *docgen) anyValue(depth int) *dv {
 }
 
 func (g *docgen) extraKey() string {
+	if g.mergeKeys && g.rng.Chance(6) {
+		return "<<"
+	}
 	if g.rng.Chance(12) {
 		return sx.Pick(g.rng, []string{"yes", "1", "true", "null", "0x1", "~", "k with space", "depends_on", "agents", "if", "soft_fail", "é", "2002-08-15", "1.5"}) + g.mark()
 	}
@@ -492,7 +496,9 @@ func (g *docgen) matrix() *dv {
 		if named {
 			su := dMap()
 			for k := 1 + g.rng.Intn(3); k > 0; k-- {
-				switch g.rng.Intn(8) {
+				switch g.rng.Intn(10) {
+				case 9:
+					su.set(fmt.Sprint("dim", k), dNull()) // null -> nil value list
 				case 0:
 					su.set(fmt.Sprint("dim", k), g.scalar()) // scalar -> one-element list
 				default:
